@@ -29,7 +29,7 @@ package cbor
 //@   modifies nothing
 
 //@ func appendCborTypePrefix(dst, major, number) res
-//@   props C09 C08 C01 C02 C03
+//@   props C09 C01 C03
 //@   arith bv
 //@   flag tags binary_log
 //@   requires major % 32 == 0
@@ -41,7 +41,7 @@ package cbor
 //@     decreases byteCount + 1
 
 //@ func (Encoder).AppendKey(e, dst, key) res
-//@   props C09 C08 C01 C02 C03
+//@   props C09 C01 C03
 //@   arith int
 //@   flag noovf
 //@   flag tags binary_log
@@ -50,7 +50,7 @@ package cbor
 //@   ensures len(dst) >= 1 ==> prefix(res, dst) && mt(res, len(dst)) == 3 && argof(res, len(dst)) == uint64(len(key)) && len(res) == len(dst) + headlen(res, len(dst)) + len(key)
 
 //@ func (Encoder).AppendString(e, dst, s) res
-//@   props C09 C08 C01 C02 C03
+//@   props C09 C01 C03
 //@   arith int
 //@   flag noovf
 //@   flag tags binary_log
@@ -60,7 +60,7 @@ package cbor
 //@   ensures! emitsvalue(res, dst)
 
 //@ func (Encoder).AppendBytes(e, dst, s) res
-//@   props C09 C08 C01 C02 C03
+//@   props C09 C01 C03
 //@   arith int
 //@   flag noovf
 //@   flag tags binary_log
@@ -70,7 +70,7 @@ package cbor
 //@   ensures! emitsvalue(res, dst)
 
 //@ func AppendEmbeddedJSON(dst, s) res
-//@   props C09 C08 C01 C02 C03
+//@   props C09 C01 C03
 //@   arith int
 //@   flag noovf
 //@   flag tags binary_log
@@ -81,7 +81,7 @@ package cbor
 //@   ensures! emitsvalue(res, dst)
 
 //@ func AppendEmbeddedCBOR(dst, s) res
-//@   props C09 C08 C01 C02 C03
+//@   props C09 C01 C03
 //@   arith int
 //@   flag noovf
 //@   flag tags binary_log
@@ -92,7 +92,7 @@ package cbor
 //@   ensures! emitsvalue(res, dst)
 
 //@ func (Encoder).AppendHex(e, dst, val) res
-//@   props C09 C08 C01 C02 C03
+//@   props C09 C01 C03
 //@   arith int
 //@   flag noovf
 //@   flag tags binary_log
@@ -103,7 +103,7 @@ package cbor
 //@   ensures! emitsvalue(res, dst)
 
 //@ func (Encoder).AppendIPAddr(e, dst, ip) res
-//@   props C09 C08 C01 C02 C03
+//@   props C09 C01 C03
 //@   arith int
 //@   flag noovf
 //@   flag tags binary_log
@@ -114,7 +114,7 @@ package cbor
 //@   ensures! emitsvalue(res, dst)
 
 //@ func (Encoder).AppendMACAddr(e, dst, ha) res
-//@   props C09 C08 C01 C02 C03
+//@   props C09 C01 C03
 //@   arith int
 //@   flag noovf
 //@   flag tags binary_log
@@ -125,7 +125,7 @@ package cbor
 //@   ensures! emitsvalue(res, dst)
 
 //@ func (Encoder).AppendNil(e, dst) res
-//@   props C09 C08 C01 C02 C03
+//@   props C09 C01 C03
 //@   arith int
 //@   flag noovf
 //@   flag tags binary_log
@@ -134,7 +134,7 @@ package cbor
 //@   ensures! emitsvalue(res, dst)
 
 //@ func (Encoder).AppendBeginMarker(e, dst) res
-//@   props C09 C08 C01 C02 C03
+//@   props C09 C01 C03
 //@   arith int
 //@   flag noovf
 //@   flag tags binary_log
@@ -143,7 +143,7 @@ package cbor
 //@   ensures! lex(res) == 0 && mode(res) == OBJ_FIRST && stk(res) == pushstk(mode(dst), stk(dst)) && prefix(res, dst) && len(res) == len(dst) + 1
 
 //@ func (Encoder).AppendEndMarker(e, dst) res
-//@   props C09 C08 C01 C02 C03
+//@   props C09 C01 C03
 //@   arith int
 //@   flag noovf
 //@   flag tags binary_log
@@ -152,7 +152,7 @@ package cbor
 //@   ensures! lex(res) == 0 && mode(res) == closemode(stk(dst)) && stk(res) == popstk(stk(dst)) && prefix(res, dst) && len(res) == len(dst) + 1
 
 //@ func (Encoder).AppendArrayStart(e, dst) res
-//@   props C09 C08 C01 C02 C03
+//@   props C09 C01 C03
 //@   arith int
 //@   flag noovf
 //@   flag tags binary_log
@@ -161,7 +161,7 @@ package cbor
 //@   ensures! lex(res) == 0 && mode(res) == ARR_FIRST && stk(res) == pushstk(mode(dst), stk(dst)) && prefix(res, dst) && len(res) == len(dst) + 1
 
 //@ func (Encoder).AppendArrayEnd(e, dst) res
-//@   props C09 C08 C01 C02 C03
+//@   props C09 C01 C03
 //@   arith int
 //@   flag noovf
 //@   flag tags binary_log
@@ -170,14 +170,14 @@ package cbor
 //@   ensures! lex(res) == 0 && mode(res) == closemode(stk(dst)) && stk(res) == popstk(stk(dst)) && prefix(res, dst) && len(res) == len(dst) + 1
 
 //@ func (Encoder).AppendArrayDelim(e, dst) res
-//@   props C09 C08 C01 C02 C03
+//@   props C09 C01 C03
 //@   arith int
 //@   flag noovf
 //@   flag tags binary_log
 //@   ensures same(res, dst)
 
 //@ func (Encoder).AppendLineBreak(e, dst) res
-//@   props C09 C08 C01 C02 C03
+//@   props C09 C01 C03
 //@   arith int
 //@   flag noovf
 //@   flag tags binary_log
@@ -192,7 +192,7 @@ package cbor
 //@   ensures lex(res) == 0 && mode(res) == OBJ_NEXT && stk(res) == stk(dst) && prefix(res, dst) && len(res) == len(dst) + len(o) - 1
 
 //@ func (Encoder).AppendBool(e, dst, val) res
-//@   props C09 C08 C01 C02 C03
+//@   props C09 C01 C03
 //@   arith int
 //@   flag noovf
 //@   flag tags binary_log
@@ -200,7 +200,7 @@ package cbor
 //@   ensures! emitsvalue(res, dst)
 
 //@ func (Encoder).AppendInt(e, dst, val) res
-//@   props C09 C08 C01 C02 C03
+//@   props C09 C01 C03
 //@   arith bv
 //@   flag tags binary_log
 //@   ensures val >= 0 ==> onehead(res, dst, 0, uint64(val))
@@ -208,7 +208,7 @@ package cbor
 //@   ensures! emitsvalue(res, dst)
 
 //@ func (Encoder).AppendInt64(e, dst, val) res
-//@   props C09 C08 C01 C02 C03
+//@   props C09 C01 C03
 //@   arith bv
 //@   flag tags binary_log
 //@   ensures val >= 0 ==> onehead(res, dst, 0, uint64(val))
@@ -216,7 +216,7 @@ package cbor
 //@   ensures! emitsvalue(res, dst)
 
 //@ func (Encoder).AppendInt8(e, dst, val) res
-//@   props C09 C08 C01 C02 C03
+//@   props C09 C01 C03
 //@   arith bv
 //@   flag tags binary_log
 //@   ensures val >= 0 ==> onehead(res, dst, 0, uint64(int64(val)))
@@ -224,7 +224,7 @@ package cbor
 //@   ensures! emitsvalue(res, dst)
 
 //@ func (Encoder).AppendInt16(e, dst, val) res
-//@   props C09 C08 C01 C02 C03
+//@   props C09 C01 C03
 //@   arith bv
 //@   flag tags binary_log
 //@   ensures val >= 0 ==> onehead(res, dst, 0, uint64(int64(val)))
@@ -232,7 +232,7 @@ package cbor
 //@   ensures! emitsvalue(res, dst)
 
 //@ func (Encoder).AppendInt32(e, dst, val) res
-//@   props C09 C08 C01 C02 C03
+//@   props C09 C01 C03
 //@   arith bv
 //@   flag tags binary_log
 //@   ensures val >= 0 ==> onehead(res, dst, 0, uint64(int64(val)))
@@ -240,7 +240,7 @@ package cbor
 //@   ensures! emitsvalue(res, dst)
 
 //@ func (Encoder).AppendUint(e, dst, val) res
-//@   props C09 C08 C01 C02 C03
+//@   props C09 C01 C03
 //@   arith bv
 //@   flag tags binary_log
 //@   flag replay cbor_uint val=val
@@ -248,7 +248,7 @@ package cbor
 //@   ensures! emitsvalue(res, dst)
 
 //@ func (Encoder).AppendUint8(e, dst, val) res
-//@   props C09 C08 C01 C02 C03
+//@   props C09 C01 C03
 //@   arith bv
 //@   flag tags binary_log
 //@   flag replay cbor_uint val=val
@@ -256,7 +256,7 @@ package cbor
 //@   ensures! emitsvalue(res, dst)
 
 //@ func (Encoder).AppendUint16(e, dst, val) res
-//@   props C09 C08 C01 C02 C03
+//@   props C09 C01 C03
 //@   arith bv
 //@   flag tags binary_log
 //@   flag replay cbor_uint val=val
@@ -264,7 +264,7 @@ package cbor
 //@   ensures! emitsvalue(res, dst)
 
 //@ func (Encoder).AppendUint32(e, dst, val) res
-//@   props C09 C08 C01 C02 C03
+//@   props C09 C01 C03
 //@   arith bv
 //@   flag tags binary_log
 //@   flag replay cbor_uint val=val
@@ -272,7 +272,7 @@ package cbor
 //@   ensures! emitsvalue(res, dst)
 
 //@ func (Encoder).AppendUint64(e, dst, val) res
-//@   props C09 C08 C01 C02 C03
+//@   props C09 C01 C03
 //@   arith bv
 //@   flag tags binary_log
 //@   flag replay cbor_uint val=val
@@ -280,7 +280,7 @@ package cbor
 //@   ensures! emitsvalue(res, dst)
 
 //@ func (Encoder).AppendStrings(e, dst, vals) res
-//@   props C09 C08 C01 C02 C03
+//@   props C09 C01 C03
 //@   arith int
 //@   flag noovf
 //@   flag tags binary_log
@@ -293,7 +293,7 @@ package cbor
 //@     invariant ncalls(Encoder.AppendString) == old(ncalls(Encoder.AppendString)) + rangeindex + 1
 
 //@ func (Encoder).AppendBools(e, dst, vals) res
-//@   props C09 C08 C01 C02 C03
+//@   props C09 C01 C03
 //@   arith int
 //@   flag noovf
 //@   flag tags binary_log
@@ -308,7 +308,7 @@ package cbor
 //@     invariant ncalls(Encoder.AppendBool) == old(ncalls(Encoder.AppendBool)) + rangeindex + 1
 
 //@ func (Encoder).AppendInts(e, dst, vals) res
-//@   props C09 C08 C01 C02 C03
+//@   props C09 C01 C03
 //@   arith int
 //@   flag noovf
 //@   flag tags binary_log
@@ -323,7 +323,7 @@ package cbor
 //@     invariant ncalls(Encoder.AppendInt) == old(ncalls(Encoder.AppendInt)) + rangeindex + 1
 
 //@ func (Encoder).AppendInts8(e, dst, vals) res
-//@   props C09 C08 C01 C02 C03
+//@   props C09 C01 C03
 //@   arith int
 //@   flag noovf
 //@   flag tags binary_log
@@ -338,7 +338,7 @@ package cbor
 //@     invariant ncalls(Encoder.AppendInt) == old(ncalls(Encoder.AppendInt)) + rangeindex + 1
 
 //@ func (Encoder).AppendInts16(e, dst, vals) res
-//@   props C09 C08 C01 C02 C03
+//@   props C09 C01 C03
 //@   arith int
 //@   flag noovf
 //@   flag tags binary_log
@@ -353,7 +353,7 @@ package cbor
 //@     invariant ncalls(Encoder.AppendInt) == old(ncalls(Encoder.AppendInt)) + rangeindex + 1
 
 //@ func (Encoder).AppendInts32(e, dst, vals) res
-//@   props C09 C08 C01 C02 C03
+//@   props C09 C01 C03
 //@   arith int
 //@   flag noovf
 //@   flag tags binary_log
@@ -368,7 +368,7 @@ package cbor
 //@     invariant ncalls(Encoder.AppendInt) == old(ncalls(Encoder.AppendInt)) + rangeindex + 1
 
 //@ func (Encoder).AppendInts64(e, dst, vals) res
-//@   props C09 C08 C01 C02 C03
+//@   props C09 C01 C03
 //@   arith int
 //@   flag noovf
 //@   flag tags binary_log
@@ -383,7 +383,7 @@ package cbor
 //@     invariant ncalls(Encoder.AppendInt64) == old(ncalls(Encoder.AppendInt64)) + rangeindex + 1
 
 //@ func (Encoder).AppendUints(e, dst, vals) res
-//@   props C09 C08 C01 C02 C03
+//@   props C09 C01 C03
 //@   arith int
 //@   flag noovf
 //@   flag tags binary_log
@@ -398,7 +398,7 @@ package cbor
 //@     invariant ncalls(Encoder.AppendUint) == old(ncalls(Encoder.AppendUint)) + rangeindex + 1
 
 //@ func (Encoder).AppendUints8(e, dst, vals) res
-//@   props C09 C08 C01 C02 C03
+//@   props C09 C01 C03
 //@   arith int
 //@   flag noovf
 //@   flag tags binary_log
@@ -413,7 +413,7 @@ package cbor
 //@     invariant ncalls(Encoder.AppendUint8) == old(ncalls(Encoder.AppendUint8)) + rangeindex + 1
 
 //@ func (Encoder).AppendUints16(e, dst, vals) res
-//@   props C09 C08 C01 C02 C03
+//@   props C09 C01 C03
 //@   arith int
 //@   flag noovf
 //@   flag tags binary_log
@@ -428,7 +428,7 @@ package cbor
 //@     invariant ncalls(Encoder.AppendUint16) == old(ncalls(Encoder.AppendUint16)) + rangeindex + 1
 
 //@ func (Encoder).AppendUints32(e, dst, vals) res
-//@   props C09 C08 C01 C02 C03
+//@   props C09 C01 C03
 //@   arith int
 //@   flag noovf
 //@   flag tags binary_log
@@ -443,7 +443,7 @@ package cbor
 //@     invariant ncalls(Encoder.AppendUint32) == old(ncalls(Encoder.AppendUint32)) + rangeindex + 1
 
 //@ func (Encoder).AppendUints64(e, dst, vals) res
-//@   props C09 C08 C01 C02 C03
+//@   props C09 C01 C03
 //@   arith int
 //@   flag noovf
 //@   flag tags binary_log
@@ -458,7 +458,7 @@ package cbor
 //@     invariant ncalls(Encoder.AppendUint64) == old(ncalls(Encoder.AppendUint64)) + rangeindex + 1
 
 //@ func (Encoder).AppendFloats32(e, dst, vals, unused) res
-//@   props C09 C08 C01 C02 C03
+//@   props C09 C01 C03
 //@   arith int
 //@   flag noovf
 //@   flag tags binary_log
@@ -473,7 +473,7 @@ package cbor
 //@     invariant ncalls(Encoder.AppendFloat32) == old(ncalls(Encoder.AppendFloat32)) + rangeindex + 1
 
 //@ func (Encoder).AppendFloats64(e, dst, vals, unused) res
-//@   props C09 C08 C01 C02 C03
+//@   props C09 C01 C03
 //@   arith int
 //@   flag noovf
 //@   flag tags binary_log
@@ -488,7 +488,7 @@ package cbor
 //@     invariant ncalls(Encoder.AppendFloat64) == old(ncalls(Encoder.AppendFloat64)) + rangeindex + 1
 
 //@ func (Encoder).AppendTimes(e, dst, vals, unused) res
-//@   props C09 C08 C01 C02 C03
+//@   props C09 C01 C03
 //@   arith int
 //@   flag noovf
 //@   flag tags binary_log
@@ -503,7 +503,7 @@ package cbor
 //@     invariant ncalls(Encoder.AppendTime) == old(ncalls(Encoder.AppendTime)) + rangeindex + 1
 
 //@ func (Encoder).AppendDurations(e, dst, vals, unit, useInt, unused) res
-//@   props C09 C08 C01 C02 C03
+//@   props C09 C01 C03
 //@   arith int
 //@   flag noovf
 //@   flag tags binary_log
@@ -518,7 +518,7 @@ package cbor
 //@     invariant ncalls(Encoder.AppendDuration) == old(ncalls(Encoder.AppendDuration)) + rangeindex + 1
 
 //@ func (Encoder).AppendFloat32(e, dst, val, unused) res
-//@   props C09 C08 C01 C02 C03
+//@   props C09 C01 C03
 //@   arith int
 //@   flag noovf
 //@   flag tags binary_log
@@ -528,7 +528,7 @@ package cbor
 //@     invariant i <= 4
 
 //@ func (Encoder).AppendFloat64(e, dst, val, unused) res
-//@   props C09 C08 C01 C02 C03
+//@   props C09 C01 C03
 //@   arith int
 //@   flag noovf
 //@   flag tags binary_log
@@ -538,7 +538,7 @@ package cbor
 //@     invariant 1 <= i && i <= 9 && prefix(dst, dst0) && len(dst) == len(dst0) + i && dst[len(dst0)] == 0xfb
 
 //@ func appendIntegerTimestamp(dst, t) res
-//@   props C09 C08 C01 C02 C03
+//@   props C09 C01 C03
 //@   arith int
 //@   flag noovf
 //@   flag tags binary_log
@@ -546,7 +546,7 @@ package cbor
 //@   ensures! emitsvalue(res, dst)
 
 //@ func (Encoder).appendFloatTimestamp(e, dst, t) res
-//@   props C09 C08 C01 C02 C03
+//@   props C09 C01 C03
 //@   arith int
 //@   flag noovf
 //@   flag tags binary_log
@@ -554,7 +554,7 @@ package cbor
 //@   ensures! emitsvalue(res, dst)
 
 //@ func (Encoder).AppendTime(e, dst, t, unused) res
-//@   props C09 C08 C01 C02 C03
+//@   props C09 C01 C03
 //@   arith int
 //@   flag noovf
 //@   flag tags binary_log
@@ -562,7 +562,7 @@ package cbor
 //@   ensures! emitsvalue(res, dst)
 
 //@ func (Encoder).AppendDuration(e, dst, d, unit, useInt, unused) res
-//@   props C09 C08 C01 C02 C03
+//@   props C09 C01 C03
 //@   arith int
 //@   flag noovf
 //@   flag tags binary_log
@@ -571,7 +571,7 @@ package cbor
 //@   ensures! emitsvalue(res, dst)
 
 //@ func (Encoder).AppendInterface(e, dst, i) res
-//@   props C09 C08 C01 C02 C03
+//@   props C09 C01 C03
 //@   arith int
 //@   flag noovf
 //@   flag tags binary_log
@@ -580,7 +580,7 @@ package cbor
 //@   ensures! emitsvalue(res, dst)
 
 //@ func (Encoder).AppendType(e, dst, i) res
-//@   props C09 C08 C01 C02 C03
+//@   props C09 C01 C03
 //@   arith int
 //@   flag noovf
 //@   flag tags binary_log
@@ -588,7 +588,7 @@ package cbor
 //@   ensures! emitsvalue(res, dst)
 
 //@ func (Encoder).AppendStringer(e, dst, val) res
-//@   props C09 C08 C01 C02 C03
+//@   props C09 C01 C03
 //@   arith int
 //@   flag noovf
 //@   flag tags binary_log
@@ -596,7 +596,7 @@ package cbor
 //@   ensures! emitsvalue(res, dst)
 
 //@ func (Encoder).AppendStringers(e, dst, vals) res
-//@   props C09 C08 C01 C02 C03
+//@   props C09 C01 C03
 //@   arith int
 //@   flag noovf
 //@   flag tags binary_log
@@ -610,7 +610,7 @@ package cbor
 //@     invariant ncalls(Encoder.AppendStringer) == old(ncalls(Encoder.AppendStringer)) + 1 + rangeindex + 1
 
 //@ func (Encoder).AppendIPPrefix(e, dst, pfx) res
-//@   props C09 C08 C01 C02 C03
+//@   props C09 C01 C03
 //@   arith int
 //@   flag noovf
 //@   flag tags binary_log
